@@ -20,7 +20,8 @@ Check(c) == IF c THEN TRUE ELSE PrintT("@REJ@" \o ToString(l))
 \* mutexes of the code and the lock class of the specification each belongs to
 CodeLock == ("logic.ServerManager.mutex" :> "sm") @@ ("logic.Group.mutex" :> "grp") @@
             ("hls.ServerHandler.mutex" :> "hls") @@ ("rtsp.BaseInSession.mu" :> "rin") @@
-            ("logic.IpBlacklist.mu" :> "ipb") @@ ("base.PeriodRecord.mu" :> "fps")
+            ("logic.IpBlacklist.mu" :> "ipb") @@ ("base.PeriodRecord.mu" :> "fps") @@
+            ("gb28181.PubSession.tcpMutex" :> "pst")
 \* channels of the model
 CodeChan == ("logic.Group.exitChan" :> "gexit") @@ ("logic.ServerManager.exitChan" :> "smexit")
 \* channels of capacity 1 that are written at exactly one place, inside a sync.Once body (the dispose paths of the rtsp
@@ -57,8 +58,14 @@ TraceSendUnder == /\ IsEvent("SendUnder")
 \* the exit channels are written at one place each (Group.Dispose, ServerManager.Dispose)
 TraceSend == /\ IsEvent("Send")
              /\ LET e == Trace[l] IN Check(e.to \in DOMAIN CodeChan \cup OnceChans => e.sites = 1)
-\* lal never closes a channel, which is why a send can never hit a closed one
-TraceClose == (IsEvent("Close") \/ IsEvent("CloseUnder")) /\ Check(FALSE)
+\* lal never closes a channel that is sent on, which is why a send can never hit a closed one.  The one close there is:
+\* a done-signal channel local to a function - created per connection, never sent on, closed once (defer) by the goroutine
+\* that owns it, waited for by the accept loop (gb28181.PubSession.runLoopTcp)
+DoneCloseSites == {"(*gb28181.PubSession).runLoopTcp$1"}
+TraceClose == /\ IsEvent("Close") \/ IsEvent("CloseUnder")
+              /\ LET e == Trace[l]
+                 IN Check(/\ e.ev = "Close" /\ e.to = "?local"
+                          /\ \A i \in 1..Len(e.fns) : e.fns[i] \in DoneCloseSites)
 TraceReach == /\ IsEvent("Reach")
               /\ LET e == Trace[l]
                      fs == {e.fns[i] : i \in 1..Len(e.fns)}
